@@ -123,6 +123,25 @@ def plan(ctx, scale=1.0):
             c = td.make_case(rng, size, pos, rng.choice(["uniform", "random", "adversarial", "uniform"]), n, rng.random() < 0.45, reuse, _descend(rng, 0.6))
             c["family"] = "endgame:" + cls
             cases.append(c)
+    # searches rooted at constructed positions built around the rarely reached rules (capstone on a
+    # stack next to a wall, stacks taller than the board, empty flat reserve): one visit expands the
+    # root, whose children must be exactly the legal moves
+    for size, cnt in ({3: 14, 4: 14, 5: 16, 6: 10} if ctx.thorough else {3: 3, 4: 3, 5: 5, 6: 3}).items():
+        for label, pos in td.tactical_positions(rng, size, max(1, int(cnt * scale))):
+            n = rng.choice([1, 2, 6] if size >= 5 else [1, 3, 12, 30])
+            c = td.make_case(rng, size, pos, rng.choice(["uniform", "uniform", "random"]), n, rng.random() < 0.25, None, _descend(rng, 0.3))
+            c["family"] = label
+            cases.append(c)
+    # the evaluator fails once in the middle of a search (a remote evaluator whose connection drops);
+    # the caller keeps the tree and asks again: visits, values and the reported distributions must be
+    # those of a tree that never saw the failure
+    for size, cnt in ({3: 12, 4: 8, 5: 4} if ctx.thorough else {3: 3, 4: 2, 5: 1}).items():
+        for pos in td.start_positions(rng, size, max(2, int(cnt * scale)), custom_prob=0.3)[: max(1, int(cnt * scale))]:
+            n = rng.choice([6, 15, 40] if size <= 4 else [5, 12])
+            c = td.make_case(rng, size, pos, rng.choice(["uniform", "random"]), n, False, n + 5 if rng.random() < 0.4 else None, None)
+            c["fault_at"] = rng.randrange(0, max(1, n - 2))
+            c["family"] = "evaluator-fails-once"
+            cases.append(c)
     for size, n in big:
         pos = td.start_positions(rng, size, 2, custom_prob=0.0)[0]
         cases.append(td.make_case(rng, size, pos, rng.choice(["uniform", "random"]), n, size == 3, None))
@@ -153,7 +172,18 @@ def check_run(res, ctx=None):
     cfgt = td.cfg_text(case, ptol, vtol)
     if res.pos_after != res.pos_before:
         findings.append(Finding("predicate", "position-mutated", "searched position changed from [%s] to [%s]" % (res.pos_before, res.pos_after)))
-    if res.error is not None:
+    if res.error is not None and getattr(res, "unreadable", None) is not None:
+        u = res.unreadable
+        legal = None
+        if u["parent"] and u["move"]:
+            legal = driver.run_lines(["move rules %s %s" % (u["parent"], u["move"])])[0]
+        findings.append(Finding(
+            "predicate",
+            "children-not-legal-set" if legal == "illegal" else "child-position",
+            "the returned tree has a child (node %s) for move [%s] of position [%s] whose position cannot be read (%s); by the rules that move is %s there" % (
+                "/".join(map(str, u["path"])), u["move"], u["parent"], u["exc"], "ILLEGAL" if legal == "illegal" else "legal"),
+            path="/".join(map(str, u["path"]))))
+    elif res.error is not None:
         if res.nonfinite or "NonFinite" in res.error:
             # the native solver returned inf/nan and the sampler refused it: C09/C10's finding (F9)
             findings.append(Finding("aborted", "solver-nonfinite", "the search did not return: " + res.error))
@@ -170,7 +200,7 @@ def check_run(res, ctx=None):
             findings.append(Finding("predicate", key, "the search raised instead of delivering its visits (%s); %s" % (res.error, why)))
     lines = []
     for ph in res.phases:
-        lines.append(td.replay_line(cfgt, ph))
+        lines.append(td.inv_line(cfgt, ph) if ph.get("no_replay") else td.replay_line(cfgt, ph))
         lines.append(td.inv_line(cfgt, ph))
     outs = driver.run_lines(lines) if lines else []
     trees = []
@@ -207,6 +237,10 @@ def check_run(res, ctx=None):
             else:
                 findings.append(Finding("divergence", "model-mismatch", "driver could not read the implementation tree: " + io[:80], phase=k))
         # correspondence with the model
+        if ph.get("no_replay"):
+            if ctx is not None:
+                ctx.count("phase:resumed-after-evaluator-failure")
+            continue
         if not ro.startswith("ok "):
             findings.append(Finding("divergence", "model-mismatch", "model replay answered [%s] where the implementation returned a tree (phase %d, budget %d)" % (ro[:60], k, ph["budget"]), phase=k))
             continue
